@@ -46,7 +46,7 @@ Theorem C02_reject_unknown_type : forall T As A, In A As ->
 Proof. exact select_unknown_type. Qed.
 Print Assumptions C02_reject_unknown_type.
 
-(* too few names (in a variadic slice without spare capacity: Go's slice-bounds panic of attr[0:N]) *)
+(* too few names: Go's slice-bounds panic of attr[0:N:len(attr)] - with or without spare capacity behind the slice *)
 Theorem C02_reject_too_few_names : forall T As attr, attr <> [] -> List.length attr < List.length As -> select T As attr = Panic.
 Proof. exact select_too_few. Qed.
 Print Assumptions C02_reject_too_few_names.
